@@ -93,7 +93,7 @@ def gen_cases(tier, seed):
         B = 0.3 * sc.Bc2 / sc.fu
         Amax = B * dev["film"].get("w", 4.0) / 2
         ang = float(rng.uniform(0, 2 * np.pi))
-        fac = [30.0, 300.0, 3000.0][k % 3]
+        fac = [300.0, 3000.0, 1000.0][k % 3]
         c = [Amax * fac * np.cos(ang), Amax * fac * np.sin(ang)]
         cases.append({"layer": "L2", "device": dev, "options": o, "B": B, "c": c, "time_dependent": True, "pulse": False, "slow": True,
                       "currents": S.current_spec(rng, dev, o, "const" if nt else "none", strength=0.15), "cost": 20})
